@@ -215,6 +215,49 @@ def candidates(s, kind, unit):
 
 ALLOWED_REFUSALS = (ValueError, UserWarning)
 
+# kind -> per-player attributes that may change, and only at the named index
+_FOOTPRINT = {
+    'post_ante': ('ante_posting_statuses', 'bets', 'stacks', 'payoffs'),
+    'post_blind_or_straddle': ('blind_or_straddle_posting_statuses', 'bets',
+                               'stacks', 'payoffs'),
+    'deal_hole': ('hole_dealing_statuses', 'hole_cards',
+                  'hole_card_statuses'),
+    'select_runout_count': ('runout_count_selector_statuses',),
+    'show_or_muck_hole_cards': ('hole_cards', 'hole_card_statuses',
+                                'statuses'),
+    'kill_hand': ('hand_killing_statuses', 'statuses', 'hole_cards',
+                  'hole_card_statuses'),
+    'pull_chips': ('bets', 'stacks', 'payoffs'),
+}
+
+
+def footprint(before, after, kind, pi):
+    """None, or a description of per-player state that changed at another
+    index than ``pi`` (or a pending queue that lost the wrong player)."""
+    for name in _FOOTPRINT.get(kind, ()):
+        a, b = getattr(before, name), getattr(after, name)
+        for i in range(before.player_count):
+            if i != pi and _freeze(a[i]) != _freeze(b[i]):
+                return (f'{name}[{i}] changed from {a[i]!r} to {b[i]!r}'
+                        f' although the operation names player {pi}')
+    if kind == 'show_or_muck_hole_cards' and before.street is not None:
+        want = [i for i in before.showdown_indices if i != pi]
+        got = list(after.showdown_indices)
+        if after.status and after.street is before.street and \
+                sorted(got) != sorted(want) and got:
+            return (f'players still to show were {list(before.showdown_indices)},'
+                    f' player {pi} showed/mucked, now {got}')
+    queues = {
+        'post_ante': 'ante_posting_statuses',
+        'post_blind_or_straddle': 'blind_or_straddle_posting_statuses',
+        'select_runout_count': 'runout_count_selector_statuses',
+        'kill_hand': 'hand_killing_statuses',
+    }
+    q = queues.get(kind)
+    if q and getattr(before, q)[pi] and getattr(after, q)[pi]:
+        return f'{q}[{pi}] is still pending after the operation'
+    return None
+
 
 class Prober(Hooks):
     def __init__(self, cfg, probe, stats, every):
@@ -389,6 +432,14 @@ class Prober(Hooks):
             if getattr(rec, 'player_index', None) != pi:
                 self._v('explicit_index_not_applied', kind,
                         f'{kind}{args!r} logged {rec!r} ({desc})')
+                return
+        if pi is not None and len(target.operations) == nops + 1:
+            # no automation cascade followed: the operation's footprint on
+            # the per-player bookkeeping must be at index pi and nowhere else
+            bad = footprint(s, target, kind, pi)
+            if bad:
+                self._v('explicit_index_wrong_footprint', kind,
+                        f'{kind}{args!r}: {bad} ({desc})')
                 return
         if kind == 'select_runout_count':
             want = args[0] if args else None
